@@ -122,6 +122,9 @@ def gen_name(rnd, ctx):
 def gen_case(rnd, ctx, maxmut):
     npool = 18
     items = gen_name(rnd, ctx)
+    eqcls = rnd.random() < 0.25         # record-like objects: value-based __eq__; list items replaced by equal fresh ones
+    dictkind = sorted(o for o in range(1, npool) if o % 3 == 1) if rnd.random() < 0.3 else []
+    #                                     heterogeneous paths: on these holders the `kids` link is a Dict, not a List
     deferred = rnd.random() < 0.25      # on_trait_change(..., deferred=True): registered before anything is populated
     sh = c08.Shadow(npool)
     used = [0]
@@ -192,6 +195,10 @@ def gen_case(rnd, ctx, maxmut):
         if kind == 6:
             meth = rnd.choice(["append", "insert", "pop", "setitem", "delitem", "clear", "extend", "remove",
                                "reverse", "sort", "permute"])
+            if sh.owner[c] in dictkind and meth in ("reverse", "sort", "permute"):
+                meth = "append"          # this `kids` container is a dict: no reordering
+            if eqcls and meth == "setitem" and sh.owner[c] not in dictkind and rnd.random() < 0.7:
+                meth = "setitem_eq"      # kids[i] = a fresh object that compares equal to kids[i]
             if meth in ("reverse", "sort", "permute"):
                 # in-place reorder: the same objects are removed and added by one mutation
                 if n < 2:
@@ -208,7 +215,7 @@ def gen_case(rnd, ctx, maxmut):
                     args = [0, n, new]
                     meth = "setslice"
                 sp = [0, n, new]
-            elif meth in ("append", "insert", "setitem", "extend"):
+            elif meth in ("append", "insert", "setitem", "setitem_eq", "extend"):
                 v = fresh()
                 if v is None:
                     return None
@@ -409,8 +416,12 @@ def gen_case(rnd, ctx, maxmut):
     falsy = rnd.random() < 0.3           # pool objects with __len__: falsy while their kids list is empty
     if falsy:
         ctx.count("pool:falsy-objects")
+    if eqcls:
+        ctx.count("pool:value-equality")
+    if dictkind:
+        ctx.count("pool:heterogeneous-kids")
     return dict(npool=npool, root=0, items=items, legacy=legacy_text(items), graphs=l2g(items), ops=ops,
-                deferred=deferred, falsy=falsy, reentrant=reentrant)
+                deferred=deferred, falsy=falsy, reentrant=reentrant, eqcls=eqcls, dictkind=dictkind)
 
 
 def corpus():
@@ -434,6 +445,26 @@ def corpus():
     cs.append(dict(npool=18, root=0, items=it, legacy=legacy_text(it), graphs=l2g(it), deferred=True,
                    name="deferred-lazy-dict-default",
                    ops=[["Reg"], ["Probe", 1], ["TouchItems", 0, 4, [["a", 1]]], ["Probe", 1]]))
+    # fourth wave, pinned: a DEFERRED registration through a List / Set link whose default has content and is
+    # created by a later read (the Dict form is the finding above)
+    for f in (3, 5):
+        it = [[[f], "."], [[0], "."]]
+        cs.append(dict(npool=18, root=0, items=it, legacy=legacy_text(it), graphs=l2g(it), deferred=True,
+                       ops=[["Reg"], ["Probe", 1], ["TouchItems", 0, f, [1, 2]], ["Probe", 1], ["Probe", 2],
+                            ["Unreg"], ["Probe", 1], ["Probe", 2]]))
+    # record-like objects with a value-based __eq__: kids[0] = a fresh object EQUAL to the one it replaces
+    it = [[[3], "."], [[0], "."]]
+    cs.append(dict(npool=18, root=0, items=it, legacy=legacy_text(it), graphs=l2g(it), eqcls=True,
+                   ops=[["SetCont", 0, 3, [1, 2], False], ["Reg"], ["Probe", 1], ["Probe", 2],
+                        ["Cop", 18, 6, "setitem_eq", [0, 3], [0, 1, [3]]], ["Probe", 1], ["Probe", 2], ["Probe", 3],
+                        ["Unreg"], ["Probe", 2], ["Probe", 3]]))
+    # heterogeneous path: the holder at f is first one whose kids is a List, then one whose kids is a Dict
+    it = [[[1], "."], [[3], "."], [[0], "."]]
+    cs.append(dict(npool=18, root=0, items=it, legacy=legacy_text(it), graphs=l2g(it), dictkind=[1, 4],
+                   ops=[["SetCont", 2, 3, [3], False], ["SetCont", 1, 3, [5], False], ["SetRef", 0, 1, 2], ["Reg"],
+                        ["Probe", 3], ["Probe", 5], ["SetRef", 0, 1, 1], ["Probe", 3], ["Probe", 5],
+                        ["Cop", 19, 6, "append", [6], [1, 0, [6]]], ["Probe", 5], ["Probe", 6],
+                        ["SetRef", 0, 1, 2], ["Probe", 3], ["Probe", 5], ["Probe", 6]]))
     return cs
 
 
